@@ -263,6 +263,15 @@ def gen(chk):
             e = expect(w, [2], b, 2)
             e["out"] = e["out"].replace("2\n", "2\n9\n", 1)
             cases.append((prog, e, "defer:body-raises/" + w))
+    # the nearest handler is an Either whose failing step is a PROPERTY call (through the proxy): a step that raises, a step naming
+    # a property the value does not have, arguments of such a step; the later steps are skipped and the Either holds the error
+    L = lambda ms: "".join("%s\n" % m for m in ms)
+    for body, ms in [('{m: m{boom(1)}}.try.m.{|x| "later".p; x}', [1, "true"]), ('"abc".try.nosuch(t(1)).{|x| "later".p; x}', [1, "true"]),
+                     ('"abc".try.uc.nosuch.{|x| "later".p; x}.len', ["true"]), ('5.try.+(t(1)).nosuch(t(2)).+(3)', [1, 2, "true"]),
+                     ('{a: m{ {b: 1} }}.try.a.c.d', ["true"]), ('[1, 2].try.len.nosuch.{|x| "later".p; x}', ["true"]),
+                     ('5.try./(tz(1)).nosuch', [1, "true"])]:
+        prog = '"before".p\nr := ' + body + '\nr.err?.p\n"after".p\n'
+        cases.append((prog, {"kind": "value", "out": L(["before"] + ms + ["after"])}, "either-prop-step/try"))
     rng.setstate(st)
     # nested, random
     n = 500 if chk.tier == "quick" else 15000
